@@ -310,6 +310,27 @@ class Repo:
                 return k, k.consts[name]
         return None, None
 
+    def instance_assigned(self, c):
+        """names X for which some method of c (or a base) executes `self.X = ...`"""
+        cache = self.__dict__.setdefault("_inst_assigned", {})
+        if c.qname in cache:
+            return cache[c.qname]
+        out = set()
+        for k in self.mro(c):
+            for fn in k.methods.values():
+                for n in ast.walk(fn):
+                    tgts = []
+                    if isinstance(n, ast.Assign):
+                        tgts = n.targets
+                    elif isinstance(n, (ast.AugAssign, ast.AnnAssign)):
+                        tgts = [n.target]
+                    for t in tgts:
+                        for x in ast.walk(t):
+                            if isinstance(x, ast.Attribute) and isinstance(x.value, ast.Name) and x.value.id == "self" and isinstance(x.ctx, ast.Store):
+                                out.add(x.attr)
+        cache[c.qname] = out
+        return out
+
     @staticmethod
     def mangle(cname, attr):
         if attr.startswith("__") and not attr.endswith("__"):
